@@ -117,6 +117,33 @@ impl Exec for OwnExec {
                 f.set_len(PAGES as u64).unwrap();
                 let f = Arc::new(f);
                 let mut raw_ptr = 0usize;
+                if kind == "failed_build" {
+                    // a file-backed request whose range lies past the end of the file: refused, and nothing may stay mapped
+                    let res = MmapRegionBuilder::<()>::new(SIZE)
+                        .with_file_offset(FileOffset::from_arc(f.clone(), PAGES as u64))
+                        .with_mmap_prot(libc::PROT_READ | libc::PROT_WRITE)
+                        .with_mmap_flags(libc::MAP_SHARED | libc::MAP_NORESERVE)
+                        .build();
+                    let ok = res.is_ok();
+                    drop(res);
+                    self.maps.push(Mapping { kind, name, raw_ptr, _file: f });
+                    return event(line, if ok { json!({"k": "ok", "v": 0}) } else { json!({"k": "err"}) }, self.state());
+                }
+                if kind == "failed_wrap" {
+                    // the mapping is created, but the guest range does not fit below 2^64: the region is refused and the
+                    // mapping it was given by value must go away with it
+                    let region = MmapRegionBuilder::<()>::new(SIZE)
+                        .with_file_offset(FileOffset::from_arc(f.clone(), 0))
+                        .with_mmap_prot(libc::PROT_READ | libc::PROT_WRITE)
+                        .with_mmap_flags(libc::MAP_SHARED | libc::MAP_NORESERVE)
+                        .build()
+                        .expect("harness: build owned");
+                    let res = GuestRegionMmap::new(region, GuestAddress(u64::MAX - 0x10));
+                    let ok = res.is_ok();
+                    drop(res);
+                    self.maps.push(Mapping { kind, name, raw_ptr, _file: f });
+                    return event(line, if ok { json!({"k": "ok", "v": 0}) } else { json!({"k": "err"}) }, self.state());
+                }
                 let region = if kind == "raw" {
                     use std::os::fd::AsRawFd;
                     let p = unsafe {
